@@ -50,6 +50,31 @@ Proof.
   exists ex, sg, t, f, secret. repeat split; auto.
 Qed.
 
+(* the converses: every condition met => accepted with exactly this identity (so the characterisations are exact) *)
+Theorem v2_header_accept_complete r ak sg f secret :
+  auth = Some f -> f ak = Some secret ->
+  sg = mac secret (v2_string_to_sign HeaderAuth (w_meth r) (w_raw_path r) (w_qs r) (w_hs r) (w_vh r)) ->
+  (hs_get_unique (w_hs r) (b "date") <> None \/ hs_get_unique (w_hs r) (b "x-amz-date") <> None) ->
+  v2_header_auth mac auth r ak sg = Accept ak [] (b "s3") None.
+Proof.
+  intros Ea Es -> D. unfold v2_header_auth, lookup2. rewrite Ea, Es, beq_refl.
+  destruct (hs_get_unique (w_hs r) (b "date")) as [d1|]; [reflexivity|].
+  destruct (hs_get_unique (w_hs r) (b "x-amz-date")) as [d2|]; [reflexivity|]. destruct D as [D|D]; congruence.
+Qed.
+
+Theorem v2_presigned_accept_complete r now_ns ak ex sg t f secret :
+  let qs := match w_qs r with Some l => l | None => [] end in
+  qs_get_unique qs (b "AWSAccessKeyId") = Some ak -> qs_get_unique qs (b "Expires") = Some ex ->
+  qs_get_unique qs (b "Signature") = Some sg -> parse_unix_ts ex = Some t ->
+  (now_ns <= t * 1000000000)%Z -> auth = Some f -> f ak = Some secret ->
+  pct_decode sg = mac secret (v2_string_to_sign PresignedUrl (w_meth r) (w_raw_path r) (w_qs r) (w_hs r) (w_vh r)) ->
+  v2_presigned mac auth r now_ns = Accept ak [] (b "s3") None.
+Proof.
+  cbv zeta. intros E1 E2 E3 Et W Ea Es Esg. unfold v2_presigned, lookup2. cbv zeta.
+  rewrite E1, E2, E3, Et. assert (Hw : (t * 1000000000 <? now_ns)%Z = false) by (apply Z.ltb_ge; exact W). rewrite Hw.
+  rewrite Ea, Es, Esg, beq_refl. reflexivity.
+Qed.
+
 (* V2 is tried before V4; whatever V2 decides is final *)
 Lemma v2_before_v4 H epoch_of r4 r2 dl now v :
   v2_check mac auth r2 now = Some v ->
